@@ -355,6 +355,8 @@ def build(w):
         modifies=['self.*'],
         ensures=dict(dict(geometry_inv(), **index_inv()),
                      starts_empty='len(%s) == 0 and len(%s) == 0 and len(%s) == 0 and self._size == size' % (S, A, PD),
+                     # (a child that finds another pid here starts over: C15, variant fork)
+                     belongs_to_the_calling_process='self._lastpid == g.pid',
                      # free() tells "called from a finalizer inside malloc/free of this thread" by failing to take the lock
                      lock_is_free_and_not_reentrant='not self._lock.held and not self._lock.reentrant'),
     )
